@@ -241,7 +241,7 @@ impl<'a> Run<'a> {
     fn viol(&mut self, live: Option<&Live>, verdict: &str, extra: &[(&str, String)], detail: String) {
         let mut key = verdict.to_string();
         for (k, v) in extra {
-            if ["what", "why", "call", "err", "site", "model"].contains(k) {
+            if ["what", "why", "call", "err", "site", "model", "search"].contains(k) {
                 key.push_str(&format!("|{}={}", k, v));
             }
         }
@@ -289,7 +289,11 @@ impl<'a> Run<'a> {
         for (qi, q) in self.case.queries.iter().enumerate() {
             let idx = &live.idx;
             let ctx = &mut live.ctxs[qi];
-            let r = guarded(|| idx.search(&q.vec, q.k, ctx, |row| model.table_get(row)));
+            let r = if q.filtered {
+                guarded(|| idx.search_filtered(&q.vec, q.k, ctx, |row| model.table_get(row), |row| model.live.contains_key(&row)))
+            } else {
+                guarded(|| idx.search(&q.vec, q.k, ctx, |row| model.table_get(row)))
+            };
             outs.push(match r {
                 Err((site, _msg)) => SearchOut::Panic(site),
                 Ok(Err(e)) => SearchOut::Err(normalise_err(&format!("{:#}", e))),
@@ -436,13 +440,14 @@ impl<'a> Run<'a> {
     /// The C25 search clauses for one query result.
     fn check_one(&mut self, live: &Live, step: &str, qi: usize, so: &SearchOut) {
         let q = self.case.queries[qi].clone();
-        let qdesc = format!("query #{} {:?} k={} ef={}", qi, q.vec, q.k, q.ef);
+        let qdesc = format!("query #{} {}{:?} k={} ef={}", qi, if q.filtered { "(search_filtered, visible = live rows) " } else { "" }, q.vec, q.k, q.ef);
+        let api = if q.filtered { "filtered" } else { "plain" };
         let res = match so {
             SearchOut::Panic(site) => {
                 self.viol(
                     Some(live),
                     "panic",
-                    &[("site", site.clone()), ("call", "search".into())],
+                    &[("search", api.to_string()), ("site", site.clone()), ("call", "search".into())],
                     format!("{}: {} panicked at {}", step, qdesc, site),
                 );
                 self.stop = true;
@@ -452,7 +457,7 @@ impl<'a> Run<'a> {
                 self.viol(
                     Some(live),
                     "unexpected-error",
-                    &[("call", "search".into()), ("err", e.clone())],
+                    &[("search", api.to_string()), ("call", "search".into()), ("err", e.clone())],
                     format!("{}: {} failed: {}", step, qdesc, e),
                 );
                 return;
@@ -470,7 +475,7 @@ impl<'a> Run<'a> {
             self.viol(
                 Some(live),
                 "too-many-results",
-                &[],
+                &[("search", api.to_string())],
                 format!("{}: {} returned {} results: {}", step, qdesc, res.len(), shown),
             );
         }
@@ -505,7 +510,7 @@ impl<'a> Run<'a> {
             self.viol(
                 Some(live),
                 "dead-row-returned",
-                &[("what", what.to_string())],
+                &[("search", api.to_string()), ("what", what.to_string())],
                 format!(
                     "{}: {} returned row id {} which is not live ({}; {}); live rows: {}; results: {}",
                     step,
@@ -529,7 +534,7 @@ impl<'a> Run<'a> {
             self.viol(
                 Some(live),
                 "duplicate-row-id",
-                &[("what", what.to_string())],
+                &[("search", api.to_string()), ("what", what.to_string())],
                 format!("{}: {} returned row id {} {} times: {}", step, qdesc, row, n, shown),
             );
         }
@@ -551,7 +556,7 @@ impl<'a> Run<'a> {
                 self.viol(
                     Some(live),
                     "not-ranked-by-true-distance",
-                    &[("what", what.to_string())],
+                    &[("search", api.to_string()), ("what", what.to_string())],
                     format!(
                         "{}: {} ({}): row {} (true distance {:.6}) is returned before row {} (true distance {:.6}); true distances in returned order: [{}]; results: {}",
                         step,
@@ -575,7 +580,7 @@ impl<'a> Run<'a> {
             self.viol(
                 Some(live),
                 "no-result-while-live",
-                &[("what", returned.to_string())],
+                &[("search", api.to_string()), ("what", returned.to_string())],
                 format!("{}: {} returned {} although {} vectors are live: {}", step, qdesc, returned, live_n, shown),
             );
         }
@@ -590,7 +595,7 @@ impl<'a> Run<'a> {
                 self.viol(
                     Some(live),
                     "missing-live-when-covered",
-                    &[("why", why.clone())],
+                    &[("search", api.to_string()), ("why", why.clone())],
                     format!(
                         "{}: {}: the index holds {} nodes ({} live), ef {} and k {} cover it, but {} live rows are missing (first: row {}, {}); missing: {:?}; results: {}",
                         step,
